@@ -165,7 +165,7 @@ func main() {
 	}
 
 	// 6. header-first delivery (the client's path): the random trees again, headers running ahead of the data
-	n = r.N(10, 100)
+	n = r.N(8, 100)
 	for i := 0; i < n; i++ {
 		runScenario("random-headers", false, g.U64(), 8+g.Intn(21))
 	}
